@@ -5,7 +5,7 @@
 From Coq Require Import String.
 From Coq Require Import List Arith Lia Bool ZArith Permutation Ring.
 From NV.Lib Require Import RingMat.
-From NV.C01 Require Import Model Exec Proofs ProofsZ CMap CMapProofs Axes AxesProofs.
+From NV.C01 Require Import Model Exec Proofs ProofsZ CMap CMapProofs Axes AxesProofs ProductN.
 Import ListNotations.
 
 Section Generic.
@@ -135,6 +135,13 @@ Section Generic.
     Apply b (drop_nth i x) = Ok (Happly (amat a) x) /\
     cnames (adom b) = drop_nth i (cnames (adom a)) /\ cnames (arng b) = cnames (arng a).
   Proof. exact (drop_io_dim_input_only R r0 r1 radd rmul rsub ropp reqb Rth reqb_spec). Qed.
+  (* a product of ANY number of maps acts independently on each block of coordinates *)
+  Theorem product_of_any_number_of_maps_acts_blockwise : forall affs inn outn p xs,
+    Forall WFr affs -> product R r0 r1 reqb affs inn outn = Ok p -> blocks_ok R affs xs ->
+    Apply p (concat xs) = Ok (blockwise R r0 r1 radd rmul affs xs) /\
+    cnames (adom p) = flat_map (fun a => cnames (adom a)) affs /\
+    cnames (arng p) = flat_map (fun a => cnames (arng a)) affs.
+  Proof. exact (productN_blockwise R r0 r1 radd rmul rsub ropp reqb Rth reqb_spec). Qed.
 End Generic.
 
 Print Assumptions compose_apply.
@@ -148,6 +155,7 @@ Print Assumptions product_acts_blockwise.
 Print Assumptions append_axis_leaves_rest_untouched.
 Print Assumptions shifted_domain_origin_apply.
 Print Assumptions shifted_range_origin_apply.
+Print Assumptions product_of_any_number_of_maps_acts_blockwise.
 Print Assumptions drop_axis_leaves_rest_untouched.
 Print Assumptions dropped_axis_pair_is_isolated.
 Print Assumptions drop_output_only_leaves_rest_untouched.
